@@ -24,10 +24,18 @@ RULE = ("BFS over histories on three String variables (operations on s0 with arg
         "length, bytes, isEmpty, ==/!=, startsWith/endsWith, find(char) of every variable are compared with a std::string-like reference, "
         "literals and attached ranges must be byte-identical to their pristine copies, reference counts must equal the number of sharers")
 
+def build_sizes(ctx):
+    return ctx.compile("string_sizes_h", [ctx.verif("harness/string_sizes_h.cpp")] + [ctx.repo(s) for s in SRC])
+
 def run(ctx):
     b = builders(ctx)
     K.run_bfs_configs(ctx, configs(ctx, b))
-    cov = K.mc_coverage(ctx, RULE)
+    n = 300 if ctx.tier == "quick" else 1500
+    ctx.run_shards(build_sizes(ctx), ["--len", str(n)], nshards=4, label="String size boundaries")
+    cov = K.mc_coverage(ctx, RULE + "; size boundaries: printf / fromPrintf / append / prepend / resize / reserve / repeated append(char) with every operand length 0..%d on five "
+                                   "initial representations (empty, owned, owned with slack, shared with a copy, literal), exactly sized operands under ASan" % n,
+                        {"size_cases": ctx.counters.get("size_cases", 0)})
+    cov["traces_validated_against_impl"] += int(ctx.counters.get("size_cases", 0))
     cov["exhaustive"] = not ctx.counters.get("deadline_hit") and not ctx.counters.get("state_cap_hit")
     cov["exhaustive_meaning"] = "every history up to the stated depth from each initial state (the space is infinite; depth bounded by design)"
     return ctx.finish("model_checking", cov,
@@ -36,4 +44,7 @@ def run(ctx):
                        "bytes exposed by a growing resize are unspecified (adopted when first observed)"], tags=["C06"])
 
 def replay(ctx, rp):
+    if rp.get("binary", "").startswith("string_sizes"):
+        ctx.run_shards(build_sizes(ctx), ["--len", "300"], nshards=4, label="String size boundaries")
+        return ctx.finish("model_checking", {"states": 1, "transitions": 1, "traces_validated_against_impl": 1, "rule": "replay of the size-boundary enumeration"}, tags=["C06"])
     return K.replay_generic(ctx, rp, builders(ctx))
